@@ -160,6 +160,19 @@ def hmmDetSavedUnder (o : HmmOpts) (j : J) : Bool :=
          | none => false)
       | none => false)
 
+/-- PFAM results may be kept iff they were computed with the database version the *current* run of
+    the *same* module asks for (each module has its own option; "latest" means the newest installed) -/
+def pfamKeepAllowed (m : HmmerModule) (o : PfamOpts) (storedVersion : String) : Bool :=
+  match m with
+  | .full => (if o.fullVersion == "latest" then o.latestAvailable else o.fullVersion) == storedVersion
+  | .cluster => (if o.clusterVersion == "latest" then o.latestAvailable else o.clusterVersion) == storedVersion
+
+/-- sideloaded annotations may be reused under options `cur` iff `cur` requests no sideloading, or
+    requests exactly the annotations that were stored (`stored` = what the options of the saving run
+    load for this record) -/
+def sideloadOptsMayReuse (cur : SideOpts) (stored requestedNow : Sideloaded) : Bool :=
+  !cur.enabled || (requestedNow.subregions == stored.subregions && requestedNow.protoclusters == stored.protoclusters)
+
 /-! #### 3. reference results under changed thresholds -/
 
 /-- TTA codons a run under threshold `opt` stores for a record with GC content `gc` whose genes
